@@ -8,6 +8,7 @@
    invertibility and the IBAN-side accessors."""
 from __future__ import annotations
 
+import os
 import time
 
 import z3
@@ -641,6 +642,10 @@ def registry_evaluation():
     return problems, dict(keys=n_keys, bics=len(want_bic), unlisted_pairs=n_unlisted, ibans=n_iban, entries=len(banks))
 
 
+ROOT = os.path.dirname(os.path.dirname(os.path.abspath(__file__)))
+LEAN_THEOREMS = ["C12.group_loop", "C12.group_loop_present", "C12.group_loop_sound", "C12.group_loop_sublist"]
+
+
 def main(seed, tier):
     from props import common
     t0 = time.time()
@@ -654,6 +659,10 @@ def main(seed, tier):
                                                            ("country_code+bank_code", "primary"))]
     specs += [("props.c12", "CandidatesTask", (k,)) for k in ks] + [("props.c12", "SelectionTask", (s,)) for s in shapes]
     results = common.run_tasks(specs, seed, tier)
+    from props import leanrun
+    lok, lobls, ltext, lsecs = leanrun.run(os.path.join(ROOT, "lemmas", "C12.lean"), LEAN_THEOREMS)
+    results.append(dict(task="lean lemmas C12 (grouping meta-theorem)", obligations=lobls, functions={}, files={}, paths=0,
+                        error=None if lok is not None else f"checker fault: {ltext}", spec=None))
     problems, stats = registry_evaluation()
     results.append(dict(task="bundled registry (exhaustive evaluation)", functions={}, files={}, paths=0, error=None, spec=None,
                         obligations=[dict(
@@ -675,9 +684,13 @@ def main(seed, tier):
                      "build_index(accumulate=True) - the form of all three call sites - PROVED for bank lists of any length "
                      "with symbolic field texts: loop body executed for one generic entry; each entry is appended (itself "
                      "or an equal copy) under the key of its own fields exactly when every key component is non-empty "
-                     "(and the predicate holds); generalisation to the whole list by the ASSUMED grouping meta-theorem "
-                     "(a loop of guarded appends to an empty defaultdict(list) is the order-preserving grouping; "
-                     "pyvc/agroup.py), cross-checked natively on random lists of <= 6 entries; the accumulate=False form "
+                     "(and the predicate holds); generalisation to the whole list by the grouping meta-theorem (a loop of "
+                     "guarded appends to an empty defaultdict(list) is the order-preserving grouping; pyvc/agroup.py), "
+                     "which is now MACHINE-CHECKED in Lean (lemmas/C12.lean: group_loop, group_loop_present, "
+                     "group_loop_sound, group_loop_sublist - induction on the list with a generalised accumulator); what "
+                     "stays assumed is that the Lean loop schema (foldl of `if phi e then data[k e] ++= [e]`, absent slot "
+                     "= []) is what a Python for-loop over a list with that body does; cross-checked natively on random "
+                     "lists of <= 6 entries; the accumulate=False form "
                      "has no call site and is not covered",
                      "invertibility and the IBAN-side accessors are evaluated exhaustively on the bundled "
                      "registry (22,753 keys), not proved for arbitrary registries",
